@@ -12,8 +12,9 @@ ASSUMES = ['deterministic gates; maps given as forward/backward pairs are mutual
 
 
 def c_roundtrip(ctx, args):
-    cls, N, prog, x, mode, obj, direction = args
-    got, c = run_impl(cls, N, prog, x, mode, 'orig', obj, direction)
+    cls, N, prog, x, mode, obj, direction = args[:7]
+    variant = args[7] if len(args) > 7 else 'orig'
+    got, c = run_impl(cls, N, prog, x, mode, variant, obj, direction)
     want = [[g, p % 4] for g, p in x] if obj == 'list' else [[[g, p % 4] for g, p in x[0]], x[1]]
     if got != want:
         return {'kind': 'oracle', 'where': 'np:%s %s (mode %d, %s)' % (cls, direction, mode, obj), 'observed': got, 'expected': want,
@@ -106,6 +107,8 @@ def run(ctx):
         l = gen.rplist(rng, N, 3)
         nlayers = len(ctx.model.call('circ_layers', mprog(prog)))
         do(ctx, 'roundtrip', [cls, N, prog, l, mode, 'list', d], nontrivial=('r', it) if nlayers >= 2 else None)
+        if cls == 'CliffordCircuit':
+            do(ctx, 'roundtrip', [cls, N, prog, l, mode, 'list', d, rng.choice(['copy', 'copy2', 'halves'])], nontrivial=('rv', it) if nlayers >= 3 else None)
         do(ctx, 'roundtrip', [cls, N, prog, gen.rtableau(rng, ctx.model, N), mode, 'state', d], nontrivial=('s', it) if nlayers >= 2 else None)
         do(ctx, 'backward_corr', [N, prog, l, mode])
         if it % 3 == 0:
